@@ -275,12 +275,13 @@ def h_entity_texts(ctx, major, close):
               len(ofx.bankmsgsrqv1) == 1 and ofx.bankmsgsrqv1[0].stmtrq.bankacctfrom.acctid == acctid)
 
 
-def h_repeated(ctx, major, kind, n):
-    """a multiset proper: n requests of one kind that differ at most in their (symbolic) account ids - equal ids give equal requests"""
+def h_repeated(ctx, major, kind, n, fixed=0):
+    """a multiset proper: n requests of one kind that differ at most in their (symbolic) account ids - equal ids give equal requests;
+    preceded by `fixed` requests with concrete, distinct ids (request lists longer than the symbolic part alone)"""
     client = OFXClient("http://x", userid="u", version=102 if major == 1 else 203, bankid="B1", brokerid="BR")
     reqs, ids = [], []
-    for i in range(n):
-        a = ctx.str(f"acct{i}", 1, "0-2")
+    for i in range(fixed + n):
+        a = ("F%02d" % i) if i < fixed else ctx.str(f"acct{i - fixed}", 1, "0-2")
         ids.append(a)
         if kind == "stmt":
             reqs.append(StmtRq(acctid=a, accttype="CHECKING", dtstart=D1, dtend=D2))
@@ -296,13 +297,13 @@ def h_repeated(ctx, major, kind, n):
     hdr, ofx = parse_back(data)
     ms = getattr(ofx, MSGSET_OF[kind])
     got = [] if ms is None else [w for w in ms if type(w).__name__ == WRAPPER_OF[kind]]
-    ctx.check(f"exactly one {WRAPPER_OF[kind]} per requested account, under the right message set", len(got) == n)
-    if len(got) != n:
+    ctx.check(f"exactly one {WRAPPER_OF[kind]} per requested account, under the right message set", len(got) == fixed + n)
+    if len(got) != fixed + n:
         return
     inner = {"stmt": lambda w: w.stmtrq.bankacctfrom.acctid, "cc": lambda w: w.ccstmtrq.ccacctfrom.acctid, "inv": lambda w: w.invstmtrq.invacctfrom.acctid,
              "stmtend": lambda w: w.stmtendrq.bankacctfrom.acctid, "ccend": lambda w: w.ccstmtendrq.ccacctfrom.acctid}[kind]
     ctx.check("each wrapper carries its account's identifiers, type, date range and flags, in request order", ctx.all([inner(w) == a for w, a in zip(got, ids)]))
-    ctx.check("transaction ids are pairwise distinct", len(set([w.trnuid for w in got])) == n)
+    ctx.check("transaction ids are pairwise distinct", len(set([w.trnuid for w in got])) == fixed + n)
 
 
 def h_unclosed_v2(ctx):
@@ -378,6 +379,7 @@ def instances(tier, seed):
     for major in (1, 2):
         for k in (KINDS if full else (["stmt", "ccend"] if major == 1 else ["inv", "cc", "stmtend"])):
             mk(f"repeated[v{major},{k}]", "repeated", dict(major=major, kind=k, n=2 if not full else 3))
+        mk(f"repeated[v{major},stmt,14 fixed + 1]", "repeated", dict(major=major, kind="stmt", n=1, fixed=14 if not full else 40))
     for major, close in ((1, False), (1, True), (2, True)):
         mk(f"entity_texts[v{major},close={close}]", "entity_texts", dict(major=major, close=close))
     return out
